@@ -238,6 +238,10 @@ class Unit:
         #
 
         if base_value is not None:
+            # the caller states the value: the result does not follow from the
+            # registry's table, so it must not be served to later look-ups of
+            # the same string
+            unit_cache_key = None
             # check that base_value is a float or can be converted to one
             try:
                 base_value = float(base_value)
